@@ -29,8 +29,8 @@ import vhdl_reader as R
 MODEL = os.environ.get("C07_MODEL", "current")
 assert MODEL in ("current", "old"), "C07_MODEL must be current (default) or old (development only)"
 
-KINDS = ["sig", "pout", "pin", "var", "tmp"]
-COQ_KIND = {"sig": "KSignal", "pout": "KPortOut", "pin": "KPortIn", "var": "KVariable", "tmp": "KTemporary"}
+KINDS = ["sig", "pout", "pin", "var", "tmp", "ref"]
+COQ_KIND = {"sig": "KSignal", "pout": "KPortOut", "pin": "KPortIn", "var": "KVariable", "tmp": "KTemporary", "ref": "KTemporary"}
 PARTS = ["whole", "s32", "e1", "e3", "dyn"]
 BITS = {"whole": {0, 1, 2, 3}, "s32": {2, 3}, "e1": {1}, "e3": {3}, "dyn": {0, 1, 2, 3}}
 # places: A0 = always-expression of C0, B0 = body of the sequential C0, K1 = concurrent C1, B2 = body of the
@@ -68,6 +68,11 @@ def classify_error(msg):
 # ----------------------------------------------------------------------------
 
 def feasible(kind, place, acc, part):
+    if kind == "ref":
+        # an element reference with a run-time index (`self.ia[self.ix]`): its index intermediate belongs to the context
+        # that evaluates the subscript ("W" = create it there, hand it to a pyeval helper and use it); "R" = a later
+        # context takes the stored reference out of the Python list and reads it
+        return place in ("B0", "K1", "B2", "K3") and acc in ("W", "R") and part == "whole"
     if place in INST_PLACES:
         return kind in ("sig", "pout", "pin") and acc == "W" and part in ("whole", "s32")
     if kind == "tmp":
@@ -134,6 +139,9 @@ def build(placement):
             locals_.append("        x%d = Variable[BitVector[4]](Null)" % k)
         elif kind == "tmp":
             locals_.append("        x%d = self.ia & self.ia" % k)
+        elif kind == "ref":
+            locals_ += ["        refs%d = []" % k, "", "        @cohdl.pyeval", "        def keep%d(ref):" % k,
+                        "            refs%d.append(ref)" % k, ""]
     stmts = {p: [] for p in CTX_PLACES}          # python statements per place
     events = {p: [] for p in CTX_PLACES}         # model events per place
     insts = {p: [] for p in INST_PLACES}         # (python expr, (root, kind))
@@ -149,6 +157,18 @@ def build(placement):
         name = obj_name(k, kind)
         root = k + 1
         for place, acc, part in ob["acc"]:
+            if kind == "ref":
+                sink = "r%d" % nsink
+                sroot = 100 + nsink
+                nsink += 1
+                sinks.append(sink)
+                if acc == "W":
+                    stmts[place] += ["e%d = self.ia[self.ix]" % k, "keep%d(e%d)" % (k, k), "%s[0] <<= e%d" % (sink, k)]
+                    events[place] += [ev(root, "W", kind), ev(IA_ROOT, "R", "pin"), ev(sroot, "W", "sig"), ev(root, "R", kind)]
+                else:
+                    stmts[place].append("%s[0] <<= refs%d[0]" % (sink, k))
+                    events[place] += [ev(sroot, "W", "sig"), ev(root, "R", kind)]
+                continue
             if place == "I2":
                 if part == "whole":
                     expr = "SubD(pi=self.ia, po=%s, pq=%s)" % (name, name)
@@ -310,7 +330,7 @@ def py_spec(placement):
                 if kind == "pin":
                     conflicts.append(("input-port<-" + UNIT_KIND[place], k))
                 continue
-            if kind in ("var", "tmp"):
+            if kind in ("var", "tmp", "ref"):
                 users.add(place)
             if acc in ("W", "P"):
                 if kind == "pin":
@@ -411,6 +431,14 @@ def corpus():
     for pl in CTX_PLACES:                                                              # temporaries from outside
         c.append(P(("tmp", [(pl, "R", "whole")])))
     c.append(P(("tmp", [("B0", "R", "e1"), ("B2", "R", "e3")])))
+    # an element reference with a run-time index that escapes from the context that created it (through a pyeval helper)
+    # and is read by a context compiled later: the index intermediate is then used by two contexts
+    for home in ("B0", "K1", "B2", "K3"):
+        c.append(P(("ref", [(home, "W", "whole")])))
+        c.append(P(("ref", [(home, "W", "whole"), (home, "R", "whole")])))
+    for home, other in (("B0", "K1"), ("B0", "B2"), ("B0", "K3"), ("K1", "B2"), ("K1", "K3"), ("B2", "K3")):
+        c.append(P(("ref", [(home, "W", "whole"), (other, "R", "whole")])))
+        c.append(P(("ref", [(home, "W", "whole"), (other, "R", "whole")]), ("sig", [(other, "W", "e1")])))
     for other in ("B2", "K1", "A0", "I"):                                             # push conflicts
         c.append(P(("sig", [("B0", "P", "whole"), (other, "W", "whole" if other == "I" else "e1")])))
     c.append(P(("sig", [("B0", "P", "s32"), ("B0", "W", "e1"), ("K1", "R", "whole")])))
@@ -469,7 +497,7 @@ def exhaustive_pairs():
     """every single access and every unordered pair of accesses of ONE object, for each object kind;
     reads of signals / ports (which no rule looks at) are restricted to the whole object"""
     out = []
-    for kind in KINDS:
+    for kind in [k for k in KINDS if k != "ref"]:   # "ref" placements need creation before use: corpus only
         accs = all_accesses(kind, read_parts=None if kind in ("var", "tmp") else ("whole",))
         for a in accs:
             out.append(P((kind, [a])))
